@@ -168,6 +168,13 @@ def crash_tv(mode, quick_files, thorough_files):
     return stage
 
 
+def api_tv_stage(ctx):
+    """request matrix against the real HTTP handlers over a child-process node -> Trace_Api.tla"""
+    ctx.drv_par = 8
+    trace_files_stage(ctx, "api", "api", ctx.pick(4, 8), module="Trace_Api", cfg=SIMPLE_TRACE_CFG)
+    ctx.drv_par = None
+
+
 def adversary_tv_stage(ctx):
     """Altered / recombined / forged answers -> real JSON decoder + real verifier -> Trace_Balloon.tla"""
     trace_files_stage(ctx, "adversary", "adv", ctx.pick(8, 16))
@@ -340,6 +347,12 @@ PLANS = {
                 "events (and backups); replies are verified against the snapshots acknowledged afterwards"),
     "C16": plan("model_checking", [mc_cluster, cluster_tv("backup", 6, 16), cluster_tv("window", 2, 6)], RULE_CLUSTER + "; backup scenario: random add / backup / "
                 "delete-backup sequences, then every existing backup is restored into a fresh directory and opened as a new bootstrapped node"),
+    "C11": plan("model_checking", [mc_cluster, api_tv_stage], "MC: Cluster.tla (every replicated command is applied by every replica; NoVersionPanic). "
+                "TV: request matrix = 5 methods x 9 API paths + 8 management URLs x generic body shapes (absent, empty, garbage, truncated, {}, null, [], "
+                "wrong types, null fields, number) + targeted shapes (empty event, empty/null/missing bulk, bulk of empty events, 300-event bulk, versions "
+                "{0, cur, cur+1, 2^63, 2^64-1, -1, 1.5, 2^64}, digest lengths {0,1,3,4,31,32,33,64}, start>end, backupID missing/invalid/unknown) fired at "
+                "the real handlers over a real single-node RaftNode in a child process; after each request the version is read; at the end a "
+                "liveness probe, a restart (log replay) and a second probe; distinct = (method, path, shape)"),
     "C12": plan("model_checking", [mc_balloon, adversary_tv_stage], RULE_ADV),
 }
 
